@@ -127,10 +127,9 @@ static inline struct ubuf *ubuf_block_get(struct ubuf *ubuf, int *offset_p,
 {
     struct ubuf_block *block = ubuf_block_from_ubuf(ubuf);
     struct ubuf_block *head_block = block;
-    int saved_offset = *offset_p;
-
     if (*offset_p < 0)
         *offset_p += block->total_size;
+    int saved_offset = *offset_p;
     if (size_p != NULL && *size_p == -1)
         *size_p = block->total_size - *offset_p;
 
